@@ -1,8 +1,8 @@
 """C04 — globmatch with REALPATH matches exactly what glob globs.
 
 Proof part : Properties/C04.lean — side clauses for every tree/pattern/flag word (non-existent path,
-             is-dir slash, follow table, per-piece link rule) and the D7 / D8 / G3 / G2 witnesses through
-             the whole pipeline.
+             is-dir slash, follow table, per-piece link rule for every `**` group) and the D8 / G2 witnesses
+             through the whole pipeline; `D7_fixed_witness`, `G3_fixed_witness` of the repaired D7 / G3.
 Tie        : K6 — `globmatch` / `globfilter` with REALPATH (root_dir, cwd, dir_fd) on every entry
              of the tree, entries reached through links, non-existent and absolute spellings and
              everything `glob` returned vs `Match.matchReal`; K5 (iglob events) on the same trees.
@@ -21,6 +21,18 @@ warnings.simplefilter('ignore')
 TARGETS = ['WcModel.Properties.C04']
 
 FLAGS = ['GLOBSTAR', 'GLOBSTARLONG', 'FOLLOW', 'DOTGLOB', 'EXTGLOB', 'MATCHBASE', 'NODIR', 'IGNORECASE', 'NEGATE']
+
+
+# (id, tree spec, pattern, flags, path, globmatch(path, REALPATH) must be, path in glob must be)
+FIXED_LINK_WITNESSES = [
+    ('KF-D7', [['f', 'file', ''], ['lf', 'link', 'f']], '**', ['GLOBSTAR'], 'lf', True, True),
+    ('KF-D7', [['f', 'file', ''], ['dang', 'link', 'nowhere']], '**', ['GLOBSTAR'], 'dang', True, True),
+    ('KF-G3', [['a', 'dir', ''], ['a/x', 'dir', ''], ['d', 'dir', ''], ['d/f', 'file', ''], ['a/x/l', 'link', '../../d']],
+     '**/x/**', ['GLOBSTAR'], 'a/x/l/f', False, False),
+    ('KF-RGLOBSTAR', [['a', 'dir', ''], ['a/f', 'file', ''], ['b', 'link', 'a']], '***', ['GLOBSTARLONG', 'MATCHBASE'], 'b/f', True, True),
+]
+FIXED_SITE = {'KF-D7': 'wcmatch/_wcmatch.py:93-103 (at_end)', 'KF-G3': 'wcmatch/_wcmatch.py:105 (base per group)',
+              'KF-RGLOBSTAR': 'wcmatch/glob.py:370-383 (implicit globstar part)'}
 
 
 def _flags(R, G, t, p):
@@ -127,9 +139,6 @@ def attribute(G, t, c, glob_only: set, match_only: set, raw_results: list[str], 
         return any(ss[i] in ('**', '***') and ss[i + 1] in ('**', '***') and ss[i] != ss[i + 1] for i in range(len(ss) - 1))
     mixed_stars = long and (any(_consecutive_mixed(ss) for ss in segs) or
                             (matchbase and bool(c.flags & G.FOLLOW) and any(ss and ss[0] == '**' for ss in segs)))
-    # KF-G3 needs two CAPTURED `**` groups in one regex (`***` under GLOBSTARLONG is not captured: it follows links)
-    ncap = max((sum(1 for s in ss if s == '**' or (s == '***' and not long)) for ss in segs), default=0) + \
-        (1 if matchbase and not (long and c.flags & G.FOLLOW) else 0)
     other_magic = any(s not in ('**', '***') and G.is_magic(s, flags=c.flags) for ss in segs for s in ss) or \
         (not long and any('***' in ss for ss in segs))
     def dot_segment():
@@ -163,12 +172,8 @@ def attribute(G, t, c, glob_only: set, match_only: set, raw_results: list[str], 
         # (KF-G6 — MATCHBASE leaking into the per-part regexes: `*(a)/x` returned `q/x`, `?` returned `a/a\n` — is
         #  repaired, like D14: a glob-only result under MATCHBASE with a segment that can match empty, or a name
         #  ending in a newline, is unattributed)
-        elif os.path.islink(f) and not os.path.isdir(f) and ((('**' in text) and globstar) or matchbase):
-            ids.add('KF-D7')
         elif linkdir(u) and mixed_stars:
             ids.add('KF-G7')                       # `**/***`: glob keeps the later star, the regex the earlier one
-        elif ncap >= 2 and globstar and any(k == 'link' for _, k, _ in t.desc):
-            ids.add('KF-G3')                       # second group lstat-ed under the wrong base: may hit an unrelated link
         elif linkdir(u) and nstars >= 1 and globstar and (nstars >= 2 or other_magic):
             ids.add('KF-G8')                       # only the first regex decomposition is link-tested
         else:
@@ -195,8 +200,6 @@ def attribute(G, t, c, glob_only: set, match_only: set, raw_results: list[str], 
             ids.add('KF-D6')
         elif has_linkdir and mixed_stars:
             ids.add('KF-G7')
-        elif has_linkdir and ncap >= 2 and globstar:
-            ids.add('KF-G3')
         else:
             return None
     return sorted(ids)
@@ -364,7 +367,34 @@ def run(ck: Check) -> int:
 
     def s_fixed(sr):
         _fixed_witnesses(ck, sr, G)
+    # repaired defects: their old witnesses must NOT reproduce (a reproduction is an unattributed violation)
+    def s_fixed_links(sr):
+        sr.note = ('the witnesses of the repaired D7 (link to a file / dangling link as last piece of `**`), G3 (second `**` group '
+                   'lstat-ed under the wrong base) and RGLOBSTAR (implicit MATCHBASE globstar in front of a pattern-initial globstar), '
+                   'replayed on the real code: glob vs globmatch(REALPATH)')
+        for kid, spec, pat, fl, name, want_match, want_in_glob in FIXED_LINK_WITNESSES:
+            t = K.make_tree(R, [tuple(x) for x in spec])
+            try:
+                flags = 0
+                for nm in fl:
+                    flags |= getattr(G, nm)
+                c = K.Case(pat, flags, None, 'root_dir')
+                st, ev = K.run_real(G, t, pat, flags, None, 'root_dir')
+                res = {strip(p) for k, p in ev if k == 'y'}
+                rs, bits = K.run_real_match(G, t, [name], pat, flags | G.REALPATH, None, 'globmatch', 'root_dir')
+                sr.evaluations += 1
+                sr.distinct += 1
+                got = (bits == '1', name in res)
+                ok = st == 'ok' and rs == 'ok' and got == (want_match, want_in_glob)
+                sr.histogram[f'{kid} fixed witness ' + ('holds' if ok else 'REPRODUCED: the defect is back')] = 1
+                if not ok:
+                    ck.report(Failing(f'repaired defect {kid} is back: globmatch({name!r}, {pat!r}, REALPATH) = {got[0]}, glob returns it: {got[1]}',
+                                      {**c.to_json(G, t), 'name': name}, {'globmatch': want_match, 'in_glob': want_in_glob},
+                                      {'globmatch': got[0], 'in_glob': got[1]}, FIXED_SITE[kid]), None)
+            finally:
+                t.remove()
     ck.search('fixed-witnesses', s_fixed)
+    ck.search('fixed-witnesses-links', s_fixed_links)
     if drv:
         drv.close()
     return ck.finish(assumptions=[
